@@ -34,7 +34,13 @@ NDSize DataView::transform_coordinates(const NDSize &cnt, const NDSize &off) con
         return offset;
 
     } else {
-        if (cnt + off > count) {
+        const NDSize last = cnt + off;
+        // an offset near the maximum wraps the sum around: such a request is far outside the window
+        bool wrapped = false;
+        for (size_t i = 0; i < last.size(); i++) {
+            wrapped = wrapped || last[i] < off[i];
+        }
+        if (last > count || wrapped) {
             throw OutOfBounds("Trying to access data outside of range", 0);
         }
 
